@@ -359,7 +359,7 @@ def job_twophase(job, exps, again=False, int_zero_water=False):
 
 
 def jobs(tier):
-    ints = [(1, 1, 1), (2, 2, 2), (3, 3, 3)] if tier == "quick" else [(n, n, n) for n in range(1, 7)] + [(1, 3, 6), (6, 2, 4)]
+    ints = [(1, 1, 1), (2, 2, 2), (3, 3, 3)] if tier == "quick" else [(n, n, n) for n in range(1, 7)] + [(1, 3, 6), (6, 2, 4), (5, 1, 6), (2, 6, 3), (3, 4, 1)]
     out = [(f"kr-n{e[0]}{e[1]}{e[2]}", (lambda j, e=e: job_kr(j, e))) for e in ints]
     out.append(("kr-fractional", lambda j: job_kr(j, None)))
     out.append(("kr-n212-fields-So-Sg-Sw", lambda j: job_kr(j, (2, 1, 2), ("So", "Sg", "Sw"))))
@@ -367,5 +367,5 @@ def jobs(tier):
     out.append(("reject-mixed", job_reject_mixed))
     out.append(("twophase-n2-asked-again", lambda j: job_twophase(j, (2, 2, 2), True)))
     out.append(("twophase-n2-int-zero-water", lambda j: job_twophase(j, (2, 2, 2), False, True)))
-    out += [(f"twophase-n{e[0]}", (lambda j, e=e: job_twophase(j, e))) for e in ([(2, 2, 2)] if tier == "quick" else [(1, 1, 1), (2, 2, 2), (3, 3, 3)])]
+    out += [(f"twophase-n{e[0]}", (lambda j, e=e: job_twophase(j, e))) for e in ([(2, 2, 2)] if tier == "quick" else [(1, 1, 1), (2, 2, 2), (3, 3, 3), (4, 4, 4), (1, 3, 2)])]
     return out
